@@ -171,4 +171,27 @@ pub mod thm {
         ensures input.len() - new_best.idx() < input.len() - old_best.idx(), input.len() - new_best.idx() >= 0,
     {
     }
+
+    // C19: the bookkeeping obligation on callers. Model the tracer callbacks of one parse as a word over
+    // {entry = true, exit = false}; `depth` is the level IndentedTracer holds after the word (by its contract:
+    // +1 / -1 from level 0). If the word is properly nested (no prefix has more exits than entries) then at
+    // every exit the level is >= 1 - the precondition of print_trace_result - so the indentation never underflows,
+    // and a balanced word ends at level 0.
+    pub open spec fn depth(ev: Seq<bool>) -> int
+        decreases ev.len()
+    {
+        if ev.len() == 0 { 0 } else { depth(ev.drop_last()) + if ev.last() { 1int } else { -1int } }
+    }
+    pub open spec fn properly_nested(ev: Seq<bool>) -> bool {
+        forall|k: int| 0 <= k <= ev.len() ==> depth(#[trigger] ev.subrange(0, k)) >= 0
+    }
+    pub proof fn thm_C19_nested_word_never_underflows(ev: Seq<bool>, k: int)
+        requires properly_nested(ev), 0 <= k < ev.len(), !ev[k],
+        ensures depth(ev.subrange(0, k)) >= 1,
+    {
+        let p1 = ev.subrange(0, k + 1);
+        assert(p1.drop_last() =~= ev.subrange(0, k));
+        assert(p1.last() == ev[k]);
+        assert(depth(p1) >= 0);
+    }
 }
